@@ -301,6 +301,10 @@ def run(ctx):
     from . import callsigs as _cs
     from . import findings3 as _f3
     _f3.thrift_reader_forms(ctx, 'R10.17', 'R12.6')
+    _f3.logical_annotations(ctx, 'R10.18')      # the schema that is re-serialised on append carries what was filled in here
+    from . import c02 as _c02
+    _c02.r214(ctx, 'R10.19')      # the codec recorded in ColumnMetaData is the one the pages were compressed with
+    _cs.who_may_call_rule(ctx, 'R10.CS16')
     _cs.general_rules(ctx, 'R10', ['writer.write_common_metadata', 'writer.make_part_file', 'util.update_custom_metadata',
                                     'writer.update_file_custom_metadata', 'util.metadata_from_many', 'writer.make_metadata',
                                     'writer.write_thrift', 'writer.consolidate_categories', 'writer.merge', 'api.ParquetFile.__setstate__', 'api.ParquetFile.__getstate__'])
